@@ -918,9 +918,10 @@ open HotXL.Eval in
 /-- a registered, modelled builtin that returns `v` and is not shadowed by a custom function -/
 theorem callBuiltin (env : Env) (name : List Char) (b : Fn.Builtin) (args : List Value) (v : Value) (log : Log)
     (hc : env.custom name = none) (hr : Builtins.isRegistered (String.ofList name) = true)
-    (hm : Builtins.model? (String.ofList name) = some b) (hv : b args = .ok v) :
+    (hm : Builtins.model? (String.ofList name) = some b) (hv : b args = .ok v)
+    (hno : isNoOpinion v = false) :
     callFunction env name args log = (.ok v, log ++ [.fn name args]) := by
-  simp [callFunction, hc, hr, hm, hv]
+  simp [callFunction, hc, hr, hm, hv, hno]
 
 theorem sub_ints (a b : Int) :
     evalArith 64 .sub (.num (.int a)) (.num (.int b)) = .ok (.num (.int (a - b))) := by
